@@ -133,6 +133,9 @@ class AioImpl:
             a = record.args[0] if isinstance(record.args, tuple) else record.args
             jid = self.job_id(a)
         self.events.append("EV log %d" % jid)
+        job = self.jobs.get(jid)
+        if job is not None and job.failed_attempts > job.attempts:
+            self.events.append("EV counters %d failed=%d attempts=%d" % (jid, job.failed_attempts, job.attempts))
 
     def observe(self, res):
         out = []
@@ -236,13 +239,14 @@ class AioImpl:
             else:
                 self.logger = logging.getLogger("scheduler")
             self.logger.propagate = False
-            self.logger.handlers = [core._CountingHandler(self.on_log)]
+            self.logger.handlers = []          # configured after the scheduler was built
             self.logger.setLevel(logging.DEBUG)
             from scheduler.asyncio import Scheduler as AioScheduler
             kw = dict(tzinfo=self.tz)
             if self.user_logger:
                 kw["logger"] = self.logger
             self.sch = AioScheduler(**kw)
+            self.logger.handlers = [core._CountingHandler(self.on_log)]
             self.lines.append(s_atop(init))
             self.blocks.append(self.observe(("none",)))
             for o in history[1:]:
@@ -320,7 +324,9 @@ def gen_job(r, P, aware, now, jid):
     if r.random() < P.p_once:
         o = gen.gen_once(r, GP, aware, now)
         c = o[2]
-        c["tagkind"] = "set"
+        c["tagkind"] = r.choice(["set", "set", "frozenset", "list", "tuple", "gen", "keys", "none"])
+        if c["tagkind"] == "none":
+            c["tags"] = []
         if o[1][0] == "D" and r.random() < 0.7:
             # keep one-shot datetimes near the current instant
             o = ("ONCE", ("D", gen.local_dt(now + r.choice([-1, 0, 1]) * r.randrange(0, 100 * SEC), gen.aware_off(r, aware))), c)
